@@ -225,6 +225,8 @@ package lua
 //@ requires regApart(L) && Inv_gfn(L) && TabsOK(L) && nargs(L) >= 1 && isTab(arg(L, 1)) && Inv_arr(argTab(L, 1)) && Inv_hash(argTab(L, 1)) && regsValid(L)
 //@ requires arrid(argTab(L, 1).array) != arrid(L.reg.array) && arrid(argTab(L, 1).keys) != arrid(L.reg.array)
 //@ ensures  "one-string-result": result == 1 && top(L) > old(top(L)) && isStr(L.reg.array[top(L) - 1]) && base(L) == old(base(L)) && (forall k int :: base(L) <= k && k < old(top(L)) ==> L.reg.array[k] == old(L.reg.array[k]))
+// "If i is greater than j, returns the empty string" - wherever the empty range lies
+//@ ensures  "empty-range-gives-the-empty-string": old(nargs(L) >= 4 && isNum(arg(L, 3)) && isNum(arg(L, 4)) && f2i(num(arg(L, 3))) > f2i(num(arg(L, 4)))) ==> L.reg.array[top(L) - 1] == mkStr("")
 //@ raises when true
 //@ modifies everything
 //@ loop 1 invariant regApart(L) && arrSameOrFresh(L.reg) && Inv_gfn(L) && TabsOK(L) && Disc(L) && base(L) == old(base(L)) && tbl == old(argTab(L, 1)) && Inv_arr(tbl) && 0 <= retbottom && base(L) + retbottom == old(top(L)) && top(L) >= old(top(L)) && (i > j ==> top(L) > old(top(L))) && arrid(tbl.array) != arrid(L.reg.array) && ncalls() == old(ncalls())
